@@ -137,6 +137,31 @@ fn main() {
     }
     sink.merge(struct_sweep(&run, &targets, &sweeps, 0, &sfx, 48, &extra));
 
+    // (3b) the record version never matters: all 65536 versions x multi-message records of every content type
+    let sv = par_run(run.threads, 256, |k, sink| {
+        let payloads: [(u8, &[u8]); 6] = [
+            (0x15, &[1, 0, 2, 40, 1, 90]),
+            (0x14, &[1, 1]),
+            (0x16, &[0, 0, 0, 0, 14, 0, 0, 0, 20, 0, 0, 1, 7]),
+            (0x18, &[1, 0, 2, 9, 9, 0, 0]),
+            (0x17, &[5, 6, 7]),
+            (0x15, &[1, 0, 2]),
+        ];
+        let mut b: Vec<u8> = Vec::with_capacity(32);
+        for lo in 0..256usize {
+            for (ty, p) in payloads.iter() {
+                b.clear();
+                b.extend([*ty, k as u8, lo as u8, 0, p.len() as u8]);
+                b.extend_from_slice(p);
+                for t in [&PLAINTEXT, &TWO_STEP] {
+                    let (g, r) = check_case(run.prop, t, &b, sink);
+                    extra(t, &b, &g, &r, sink);
+                }
+            }
+        }
+    });
+    sink.merge(sv);
+
     // (4) payloads = every string over a per-type positional alphabet, as complete records
     let alphas: Vec<(u8, Alpha)> = vec![
         (0x14, Alpha::uniform(&[0x01, 0x00, 0x02])),
@@ -171,7 +196,7 @@ fn main() {
     cov.insert("exhaustive".into(), json!(true));
     cov.insert("catalogue_records".into(), json!(nrec));
     cov.insert("rule".into(), json!(format!(
-        "struct: {} catalogue records (every content type, message lists of 1..{} messages incl. multi-message handshake records, trailing garbage, malformed later messages) x every combination of <= {} deviations (each length field in {{0,1,true-1,true+1,max}}, every cut, 4 suffixes); all 256 content types x 5 payloads; all 65536 alerts; all 256 heartbeat types; 7 record versions; bytes: every payload string of length <= {} over a per-content-type positional alphabet as a complete record. Each case through one-step and two-step parsing, compared with the strict record walker (value incl. slice positions, consumption = undecoded tail) and with each other. Non-trivial: not cut inside the 5-byte header",
+        "struct: {} catalogue records (every content type, message lists of 1..{} messages incl. multi-message handshake records, trailing garbage, malformed later messages) x every combination of <= {} deviations (each length field in {{0,1,true-1,true+1,max}}, every cut, 4 suffixes); all 256 content types x 5 payloads; all 65536 alerts; all 256 heartbeat types; 7 record versions on single messages and all 65536 record versions on multi-message records of each content type; bytes: every payload string of length <= {} over a per-content-type positional alphabet as a complete record. Each case through one-step and two-step parsing, compared with the strict record walker (value incl. slice positions, consumption = undecoded tail) and with each other. Non-trivial: not cut inside the 5-byte header",
         nrec, run.tier.pick(2, 4), run.tier.pick(1, 2), n)));
     let code = run.finish(
         &sink,
